@@ -1356,7 +1356,7 @@ def latency_jobs(tier, rng):
             feed.append({"at_ms": t, "src": "s", "vals": list(range(v, v + k))})
             v += k
         idle = 2500
-        feed.append({"at_ms": t + idle, "close": True})
+        feed.append({"at_ms": t, "close": True, "after_drained_ms": idle})
         jobs.append({"id": f"lat{i}_{mode}_d{depth}_p{par}_{shape}", "prog": {"nodes": nodes},
                      "cfg": {"mode": "local", "par": par}, "batch": mode, "trace": True,
                      "keep": ["fed", "arrive", "close", "enq", "send", "recv"], "feed": feed,
